@@ -8,8 +8,11 @@ def place_key(p):
 
 
 class Body:
+    TOUCHED = set()   # defs of every body a rule looked at in this run (evidence: what was analysed)
+
     def __init__(self, j):
         self.j = j
+        Body.TOUCHED.add((j.get("krate"), j["def"]))
         self.id = j["id"]
         self.defp = j["def"]
         self.blocks = j["blocks"]
